@@ -23,6 +23,8 @@ package main
 //@   safety C16
 //@   requires s != nil && s.crew.Machines != nil
 //@   ensures[C16] exists: old(id in s.crew.Machines) ==> err != nil && (id in s.crew.Machines) && s.crew.Machines[id] == old(s.crew.Machines[id])
+//@   ensures[C16] refused: old(id in s.crew.Machines) ==> ncalls("cmd/mcrew.(*Storage).WriteState") == old(ncalls("cmd/mcrew.(*Storage).WriteState"))
+//@   ensures[C16] onewrite: ncalls("cmd/mcrew.(*Storage).WriteState") <= old(ncalls("cmd/mcrew.(*Storage).WriteState")) + 1
 //@   ensures[C16] written: !old(id in s.crew.Machines) && err == nil ==> (id in s.crew.Machines) && s.crew.Machines[id] != nil && s.crew.Machines[id].State != nil
 //@   ensures[C16] rollback: !old(id in s.crew.Machines) && err != nil ==> !(id in s.crew.Machines)
 //@   ensures[C16] others: forall k string :: k != id ==> ((k in s.crew.Machines) <==> old(k in s.crew.Machines)) && s.crew.Machines[k] == old(s.crew.Machines[k])
@@ -31,6 +33,7 @@ package main
 //@ func (*Service).RemMachine returns err
 //@   safety C16
 //@   requires s != nil && s.crew.Machines != nil
+//@   ensures[C16] onewrite: ncalls("cmd/mcrew.(*Storage).WriteState") == old(ncalls("cmd/mcrew.(*Storage).WriteState")) + 1 && err == lastret("cmd/mcrew.(*Storage).WriteState", err)
 //@   ensures[C16] removed: err == nil ==> !(mid in s.crew.Machines)
 //@   ensures[C16] rollback: err != nil ==> ((mid in s.crew.Machines) <==> old(mid in s.crew.Machines)) && s.crew.Machines[mid] == old(s.crew.Machines[mid])
 //@   ensures[C16] others: forall k string :: k != mid ==> ((k in s.crew.Machines) <==> old(k in s.crew.Machines)) && s.crew.Machines[k] == old(s.crew.Machines[k])
